@@ -114,6 +114,33 @@ func roTree(t map[string]any, B int64, seed int64) []fsx.Entry {
 			}
 		}
 		addFiles(p, 2)
+	case "boundary":
+		// one directory per entry count 40..75, all names of equal length: whatever the record
+		// size of the format and options, some directory's last record ends exactly at the end
+		// of a block, and some directory is exactly one record longer
+		for n := 40; n <= 75; n++ {
+			dn := fmt.Sprintf("K%02d", n)
+			if names != "plain83" {
+				dn = fmt.Sprintf("k-%02d", n)
+			}
+			es = append(es, fsx.Entry{Path: dn, Dir: true})
+			for i := 0; i < n; i++ {
+				nm := fmt.Sprintf("F%04d.TXT", i)
+				if names != "plain83" {
+					nm = fmt.Sprintf("f%04d.txt", i)
+				}
+				es = append(es, fsx.Entry{Path: dn + "/" + nm, Data: []byte{byte(n), byte(i)}})
+			}
+		}
+	case "manyfrag":
+		es = append(es, fsx.Entry{Path: "many", Dir: true})
+		sz := int(B) - 96
+		if B > 4096 {
+			sz = 3000
+		}
+		for i := 0; i < 1100; i++ {
+			es = append(es, fsx.Entry{Path: fmt.Sprintf("many/T%05d.BIN", i), Data: fsx.Content(i+1, sz)})
+		}
 	default: // mixed
 		addFiles("", 4)
 		es = append(es, fsx.Entry{Path: dirName(1), Dir: true}, fsx.Entry{Path: dirName(2), Dir: true}, fsx.Entry{Path: dirName(1) + "/" + dirName(3), Dir: true}, fsx.Entry{Path: dirName(4), Dir: true})
@@ -550,6 +577,8 @@ func roSig(prop string) func(t, ev map[string]any, detail string) ([]string, str
 		sig := prop + "-" + res
 		raw := toStrMap(ev["raw"])
 		switch {
+		case prop == "C07" && res == "ok" && str(tr, "shape") == "boundary" && strings.Contains(js(ev["bycache"]), "unable to read directory from table"):
+			return []string{"squashfs-directory-table-beyond-one-metadata-block"}, fmt.Sprintf("squashfs image with 36 directories / 2070 entries (directory table larger than one 8 KiB metadata block): %s (options %s)", trunc(ev["bycache"]), js(o))
 		case prop == "C06" && res == "err" && str(o, "rr") == "norr" && str(o, "joliet") == "jol" && strings.Contains(str(ev, "detail"), "could not find Joliet directory"):
 			return []string{"iso-joliet-only-nested-directory-unreadable"}, fmt.Sprintf("Joliet without Rock Ridge: %v (tree %s, options %s)", ev["detail"], js(tr), js(o))
 		case prop == "C06" && str(tr, "shape") == "deep9" && str(o, "rr") == "rr" && str(o, "deep") == "nodeep" && res == "ok":
@@ -688,7 +717,11 @@ func c07Exec(tp map[string]any, idx int) map[string]any {
 	exact := func(s, i string, dir bool) bool { return s == i }
 	var shas []string
 	sq := vol.FS.(*squashfs.FileSystem)
-	for ci, cache := range []int{-1, 0, int(bs), 3 * int(bs)} {
+	caches := []int{-1, 0, int(bs), 3 * int(bs)}
+	if sh := str(t, "shape"); sh == "wide300" || sh == "manyfrag" || sh == "boundary" || str(t, "sizes") == "multi" {
+		caches = []int{-1, int(bs)} // the big trees: default cache and a cache of a single block
+	}
+	for ci, cache := range caches {
 		if cache >= 0 {
 			sq.SetCacheSize(cache)
 		}
